@@ -5,7 +5,8 @@ from gen_http import Response, Header, Chunk
 
 HARNESS = "rx_driver"
 LEAN_MODULES = ["ViaProofs.C07"]
-REQUIRED_THEOREMS = []
+LEMMA_MODULES = ["ViaProofs.Frag.Lines", "ViaProofs.Frag.Headers", "ViaProofs.Frag.Compose", "ViaProofs.C05"]
+REQUIRED_THEOREMS = ["Via.C07_frag", "Via.RS.receive_head_seq", "Via.RS.receive_head_fail_seq"]
 LEVEL = "proof"
 RULE = ("well-formed responses framed by Content-Length or chunked coding (hand-written feature set + random within the limits) "
         "and their single-change malformed variants (version token, status syntax / over limit, reason over limit, whitespace "
